@@ -13,7 +13,7 @@
    execution is accepted by TraceV2 iff every call satisfied them.  Deviations of
    the code as built that are recorded as open findings are named disjuncts
    guarded by the Dev* constants.                                              *)
-EXTENDS Integers, Sequences, FiniteSets, TLC, SequencesExt
+EXTENDS Integers, Sequences, FiniteSets, TLC, SequencesExt, V2RetainOps
 
 CONSTANTS DevNoticeInSpan,     \* open finding C06: a notice line inside a retained match's line span is not reported
           DevClampShift,       \* open finding C07: fuseRanges clamps negative offsets only at the start of the input
@@ -153,35 +153,6 @@ ScoreRet(in, e) ==
    A candidate is [cr, wr, kr, sl, el, st, et]: rank of its confidence, rank of float64(et - st) * confidence
    (the "token density" the loop compares, ranked by the recorder with the code's own float expression),
    rank of (MatchType, Name, Variant) in Go's string order, lines, token span. *)
-CContains(a, b) == a.sl <= b.sl /\ a.el >= b.el
-CBetween(x, lo, hi) == lo <= x /\ x <= hi
-COverlaps(a, b) == CBetween(a.sl, b.sl, b.el) \/ CBetween(a.el, b.sl, b.el)
-(* scan of the earlier candidates for candidate i: <<keep, proposals>> *)
-RECURSIVE Scan(_, _, _, _, _)
-Scan(cs, ret, i, j, props) ==
-  IF j >= i THEN <<TRUE, props>>
-  ELSE LET c == cs[i]  o == cs[j] IN
-       IF CContains(c, o) /\ ret[j]
-       THEN IF c.wr > o.wr THEN Scan(cs, ret, i, j + 1, props \cup {j})
-            ELSE IF o.wr > c.wr THEN <<FALSE, props>>
-            ELSE Scan(cs, ret, i, j + 1, props)
-       ELSE IF COverlaps(c, o) /\ ret[j]
-       THEN IF c.sl # o.el THEN <<FALSE, props>> ELSE Scan(cs, ret, i, j + 1, props)
-       ELSE Scan(cs, ret, i, j + 1, props)
-RECURSIVE RetainFrom(_, _, _)
-RetainFrom(cs, ret, i) ==
-  IF i > Len(cs) THEN ret
-  ELSE LET r == Scan(cs, ret, i, 1, {}) IN
-       IF r[1] THEN RetainFrom(cs, [j \in 1..Len(cs) |-> IF j = i THEN TRUE ELSE IF j \in r[2] THEN FALSE ELSE ret[j]], i + 1)
-       ELSE RetainFrom(cs, ret, i + 1)
-RetainLoop(cs) == RetainFrom(cs, [j \in 1..Len(cs) |-> FALSE], 1)
-(* Matches.Less as a total order (fixes 8eb3532, de39304): confidence desc, start asc, end desc, identity, lines *)
-CLess(a, b) == \/ a.cr > b.cr
-               \/ a.cr = b.cr /\ a.st < b.st
-               \/ a.cr = b.cr /\ a.st = b.st /\ a.et > b.et
-               \/ a.cr = b.cr /\ a.st = b.st /\ a.et = b.et /\ a.kr < b.kr
-               \/ a.cr = b.cr /\ a.st = b.st /\ a.et = b.et /\ a.kr = b.kr /\ a.sl < b.sl
-               \/ a.cr = b.cr /\ a.st = b.st /\ a.et = b.et /\ a.kr = b.kr /\ a.sl = b.sl /\ a.el < b.el
 RetainRet(in, e) ==
   /\ \A i \in 1..(Len(e.cands) - 1) : ~CLess(e.cands[i + 1], e.cands[i])             \* sorted
   /\ e.bits = RetainLoop(e.cands)                                                       \* the loop kept what the transcription keeps
